@@ -120,6 +120,8 @@ func (e ErrSpec) Build() error {
 		return context.Canceled
 	case "deadline":
 		return context.DeadlineExceeded
+	case "okstatus":
+		return okStatusErr{e.Msg}
 	}
 	st := status.New(codes.Code(e.Code), e.Msg)
 	if len(e.Details) > 0 && codes.Code(e.Code) != codes.OK {
@@ -136,6 +138,13 @@ func (e ErrSpec) Build() error {
 	}
 	return st.Err()
 }
+
+// okStatusErr is a non-nil error whose gRPC status has code OK (a handler
+// failure all the same).
+type okStatusErr struct{ msg string }
+
+func (e okStatusErr) Error() string              { return "ok-coded failure: " + e.msg }
+func (e okStatusErr) GRPCStatus() *status.Status { return status.New(codes.OK, e.msg) }
 
 // HOp is one step of a handler program.
 type HOp struct {
